@@ -51,6 +51,23 @@ def checkPI (op : String) (args res : List String) : Verdict :=
            | some pt => .viol "pi-value" s!"the value at {pt.map (fun e => s!"x{e.1}={showRat e.2}")} is not in the returned interval {showQI got} (model {showQI want})"
            | none => .disagree s!"got {showQI got} model {showQI want}"
      | _, _, _, _ => .skip "bad")
+  | "stale", [_os, ps, bs, us], [rs] =>
+    -- lp_polynomial_interval_value on an interval assignment that was filled, reset, and filled again for SOME variables only:
+    -- the variables not set again are unconstrained; no value of the polynomial on the box may be lost (property-level oracle)
+    (match pPolyRaw? ps, pBox? bs, (if us = "_" then some [] else pList? pNat? us), pVI? rs with
+     | some raw, some boxL, some unset, some got =>
+       let p := MPoly.normalize none raw
+       let vs := MPoly.vars p
+       let samplesOf (v : Nat) : List Rat :=
+         if unset.contains v then [-1000, 0, 7 / 2, 1000]
+         else match boxL.find? (fun e => e.1 = v) with | some e => (qiSamples e.2).take 3 | none => [0]
+       let pts : List (List (Nat × Rat)) := vs.foldl (fun acc v => (acc.flatMap (fun pt => (samplesOf v).map (fun s => (v, s) :: pt))).take 400) [[]]
+       let bad := pts.find? (fun pt =>
+         !(VI.contains got (.fin (MPoly.evalRat p (fun v => ((pt.find? (fun e => e.1 = v)).map (·.2)).getD 0)))))
+       match bad with
+       | some pt => .viol "pi-value" s!"after a reset the value at {pt.map (fun e => s!"x{e.1}={showRat e.2}")} is not in the returned interval {rs} (variables {unset} were not set again)"
+       | none => .ok s!"pi/stale/{if (vs.any (fun v => unset.contains v)) then "mentions-unset" else "plain"}"
+     | _, _, _, _ => .skip "bad")
   | "consint", [cs, is], [r] =>
     (match pNat? cs, pVI? is with
      | some c, some I =>
